@@ -83,6 +83,12 @@ func (info *DeviceInformationBlock) Pack(buffer []byte) {
 	buf := make([]byte, friendlyNameMaxLen)
 	util.PackString(buf, friendlyNameMaxLen, info.FriendlyName)
 
+	// The structure has room for exactly 6 octets of hardware address; shorter addresses (including
+	// the zero value) are padded with zeros and longer ones cut, so that the following name stays
+	// where it belongs and every octet of the structure is written.
+	var hardwareAddr [6]byte
+	copy(hardwareAddr[:], info.HardwareAddr)
+
 	util.PackSome(
 		buffer,
 		uint8(info.Size()), uint8(info.Type),
@@ -91,7 +97,7 @@ func (info *DeviceInformationBlock) Pack(buffer []byte) {
 		uint16(info.ProjectIdentifier),
 		info.SerialNumber[:],
 		info.RoutingMulticastAddress[:],
-		[]byte(info.HardwareAddr),
+		hardwareAddr[:],
 		buf,
 	)
 }
